@@ -38,7 +38,12 @@ func (s *memState) Set(k string, v []byte) error {
 	s.m[k] = append([]byte(nil), v...)
 	return nil
 }
-func (s *memState) Delete(k string) error { s.mu.Lock(); defer s.mu.Unlock(); delete(s.m, k); return nil }
+func (s *memState) Delete(k string) error {
+	s.mu.Lock()
+	defer s.mu.Unlock()
+	delete(s.m, k)
+	return nil
+}
 func (s *memState) Reset(string) (string, error) { return "", nil }
 func (s *memState) SaveOffset(o uint64) error    { s.o = o; return nil }
 func (s *memState) LoadOffset() (uint64, error)  { return s.o, nil }
